@@ -11,7 +11,11 @@ Inductive case :=
 | Scan (k : kind) (ival conf : Z) (nh : nat) (cstart : Z) (latest fresh : bool)
        (stored0 : option Z) (evs : list ev) (obs : list out)
 (* a real event handler whose fetch of the range succeeds / fails; did it return an error? *)
-| Propagate (fetch_ok : bool) (impl_err : bool).
+| Propagate (fetch_ok : bool) (impl_err : bool)
+(* one HandleEvents(s, e) call of a real event handler over a node that checks and records the
+   arguments of every read: fired = a read of the call could not be served; asked = the bounds of its
+   range reads as given; did it return an error? *)
+| Reads (s e : Z) (fired : bool) (asked : list (Z * Z)) (impl_err : bool).
 
 Definition optZ_eqb (a b : option Z) : bool :=
   match a, b with Some x, Some y => Z.eqb x y | None, None => true | _, _ => false end.
@@ -39,12 +43,16 @@ Definition agree (c : case) : bool :=
   | Scan k i cf n cs l f st evs obs =>
       outs_eqb (run (wiring_of k) (mk_cfg k i cf n cs l f) st evs) obs
   | Propagate f e => Bool.eqb (handler_returns_err f) e
+  | Reads s e fired asked err =>
+      Bool.eqb (handler_returns_err (negb fired)) err &&
+      Bool.eqb (err || covers s e (handler_asks s e)) (err || covers s e asked)
   end.
 
 Definition judge (c : case) : bool :=
   match c with
   | Scan k i cf n cs l f st evs obs => trace_ok (mk_cfg k i cf n cs l f) st obs
   | Propagate f e => propagate_ok f e
+  | Reads s e fired asked err => reads_ok s e fired asked err
   end.
 
 (* model branch: kind x (restarted at least once?) x (anything persisted?) ; propagate x fetch_ok *)
@@ -56,6 +64,7 @@ Definition tag (c : case) : N :=
        + (if Nat.leb 2 (length (filter (fun o => match o with OStart _ => true | _ => false end) tr)) then 2 else 0)
        + (if existsb (fun o => match o with OStore _ true => true | _ => false end) tr then 1 else 0))%N
   | Propagate f _ => if f then 13%N else 12%N
+  | Reads _ _ fired _ _ => if fired then 15%N else 14%N
   end.
 
 Definition check_all := check_cases agree judge tag.
